@@ -273,6 +273,13 @@ def main():
          "namespace Api.Generated", "", "/-- the choice of union method, in source order -/", "def unionChain : List (UGuard × UAction) := [\n  " +
          ",\n  ".join(f"({g}, {a})" for g, a in union_chain()) + "]", "", "end Api.Generated", ""]
     changed |= write_if_changed(os.path.join(OUT, "UnionSel.lean"), "\n".join(U))
+    sys.path.insert(0, HERE)
+    import extract_bexpr
+    changed |= write_if_changed(os.path.join(OUT, "Omit.lean"), extract_bexpr.render(extract_bexpr.omission_exprs(parse)))
+    changed |= write_if_changed(os.path.join(OUT, "FieldLoop.lean"), extract_bexpr.render_field_loop(extract_bexpr.field_loop(parse)))
+    changed |= write_if_changed(os.path.join(OUT, "FieldsSetSrc.lean"), extract_bexpr.render_fields_set(extract_bexpr.fields_set_exprs(parse)))
+    changed |= write_if_changed(os.path.join(OUT, "OrderSrc.lean"), extract_bexpr.render_order(extract_bexpr.order_src(parse)))
+    changed |= write_if_changed(os.path.join(OUT, "VersionsSrc.lean"), extract_bexpr.render_versions(extract_bexpr.versions_src(parse)))
     print("generated", "changed" if changed else "unchanged")
 
 
